@@ -124,7 +124,7 @@ theorem rootSel_grouped (c : Ctx) (script : Script) (X : Sel) (h : rootSel c scr
 
 /-! ### the window -/
 /-- the database without the index rows outside the window -/
-def TraceDb.inWindow (d : TraceDb) (c : Ctx) : TraceDb := ⟨d.attrs.filter (admissible c)⟩
+def TraceDb.inWindow (d : TraceDb) (c : Ctx) : TraceDb := { d with attrs := d.attrs.filter (admissible c) }
 
 theorem spanTerm_window (o : Oracles) (c : Ctx) (d : TraceDb) (k : SpanKey) (t : Term) :
     spanTerm o c (d.inWindow c) k t = spanTerm o c d k t := by
